@@ -11,7 +11,7 @@ import numpy as np
 from apihist import exn_code, run_histories
 from common import coq_eval, parse_ints, try_coq, zl
 
-UNITS = ["Orders", "ShapesApi"]
+UNITS = ["Orders", "ShapesApi", "SkelApi"]
 PROPS = ["props/C16.v"]
 EXTRA = ["theories/ApiTrace.vo"]
 ASSUMPTIONS = [
